@@ -3,6 +3,7 @@
    Props/GenEquiv.lean proves it equal to the hand-written model for all arguments. -/
 import SomeipModel.Model.Config
 import SomeipModel.Model.Session
+import SomeipModel.Model.Service
 namespace Someip.Gen
 
 def matchesOffer (s : Service) (e : SDEntry) : Except Err Bool :=
@@ -25,5 +26,14 @@ def nextOutgoing (flag : Bool) (id : Nat) : Bool × Nat :=
 
 def outgoingDefault : Bool × Nat :=
   (true, 1)
+
+def svcPrecheck (c : SvcCfg) (m : Header) (multicast known : Bool) : Option (Option RetCode) :=
+  (if multicast = true then none else (if (!decide (m.sid = c.serviceId)) = true then some (some RetCode.unknownService) else (if (!decide (m.iv = c.versionMajor)) = true then some (some RetCode.wrongInterfaceVersion) else (if (!known) = true then some (some RetCode.unknownMethod) else (if (!(decide (m.mt = MsgType.request) || decide (m.mt = MsgType.requestNoReturn))) = true then some (some RetCode.wrongMessageType) else (if (!decide (m.rc = RetCode.ok)) = true then some (some RetCode.wrongMessageType) else some none))))))
+
+def svcMalformedCode : RetCode :=
+  RetCode.malformedMessage
+
+def svcPositive (m : Header) (hasResponse : Bool) : Bool :=
+  (hasResponse && decide (m.mt = MsgType.request))
 
 end Someip.Gen
